@@ -26,7 +26,43 @@ def one(sid, pid, tier):
     finally:
         shutil.rmtree(d, ignore_errors=True); shutil.rmtree(out, ignore_errors=True)
 
+def sweep(sid):
+    """run every Verus unit of every claimed property on the patched copy (cheap) and report which
+    fail: a failing unit makes every check that lists it exit 1"""
+    sys.path.insert(0, "/verif/engine")
+    import importlib.util, run_verus
+    spec = importlib.util.spec_from_file_location("props", "/verif/contracts/properties.py"); mod = importlib.util.module_from_spec(spec); spec.loader.exec_module(mod)
+    d = tempfile.mkdtemp(prefix="swrepo-", dir=CACHE)
+    try:
+        subprocess.run(["rsync", "-a", "--exclude", "/target", "--exclude", "/.git", "/repo/", d + "/"], check=True)
+        if subprocess.run(["patch", "-p1", "-s", "-i", "/verif/seeded/%s/patch.diff" % sid], cwd=d).returncode:
+            return dict(note="patch failed")
+        units = {}
+        for pid, P in mod.PROPS.items():
+            for u in P.get("verus", []):
+                units.setdefault(u["unit"], []).append(pid)
+        res = {}
+        for u, pids in sorted(units.items()):
+            r = run_verus.run_unit(u, d, d + "/out")
+            if r["status"] != "pass":
+                res[u] = dict(status=r["status"], properties=pids, obligations=sorted({o for f in r["failed"] for o in f["obligations"]}), reason=r["reason"][:200])
+        return res
+    finally:
+        shutil.rmtree(d, ignore_errors=True)
+
+
 def main():
+    if "--sweep" in sys.argv:
+        for sid in [a for a in sys.argv[1:] if not a.startswith("--")] or sorted(os.listdir("/verif/seeded")):
+            mp = "/verif/seeded/%s/meta.json" % sid
+            if not os.path.exists(mp): continue
+            r = sweep(sid)
+            m = json.load(open(mp)); m["verus_sweep"] = r
+            if any(v.get("status") == "fail" for v in r.values() if isinstance(v, dict)):
+                m["detected"] = True
+            json.dump(m, open(mp, "w"), indent=1)
+            print(sid, {k: (v["status"], v["properties"]) for k, v in r.items() if isinstance(v, dict)}, flush=True)
+        return
     only = [a for a in sys.argv[1:] if not a.startswith("--")]
     tier = "thorough" if "--thorough" in sys.argv else "quick"
     jobs = []
@@ -34,6 +70,9 @@ def main():
         if only and sid not in only: continue
         if not os.path.exists("/verif/seeded/%s/meta.json" % sid): continue
         for pid in pids: jobs.append((sid, pid))
+    for sid in (only or sorted(os.listdir("/verif/seeded"))):
+        if sid not in PLAN and os.path.exists("/verif/seeded/%s/meta.json" % sid):
+            jobs.append((sid, sid.split("-")[0]))
     with ThreadPoolExecutor(max_workers=2) as ex:
         futs = [(sid, pid, ex.submit(one, sid, pid, tier)) for sid, pid in jobs]
         for sid, pid, f in futs:
